@@ -459,7 +459,7 @@ deriving Repr, DecidableEq, Inhabited
 /-- `upstreamclusterPlugin.Admit`: `SetDefaults_UpstreamCluster` gives every policy without strategy `RoundRobin`
     (the rule normalisation that follows is C17's subject; rules are not part of this model). Runs before `Validate`
     for both operations; does not read the old object. -/
-def admit (c : Cluster) : Cluster :=
+def admitObject (c : Cluster) : Cluster :=
   { c with policies := c.policies.map (fun p => if p.strategy = [] then { p with strategy := sRoundRobin } else p) }
 
 /-- `upstreamclusterPlugin.Validate(ctx, attributes, o)` with the admission attributes spelled out: the operation
